@@ -3,10 +3,12 @@ from vlib import gen_doc
 from vlib.scn import Scenario, h
 from checks import docs
 from checks.outparse import parse_raws, parse_views
+from gen import extract_facts
+generate_facts = extract_facts.generate
 
 ID = "C15"
-LEAN_MODULES = ["Econf.Props.C15"]
-THEOREMS = ["Econf.C15_options", "Econf.C15_unknown", "Econf.C15_unknown_string", "Econf.applyOption_item", "Econf.C15_join_step", "Econf.C15_join_entry", "Econf.C15_join_value", "Econf.C15_join_since_empty", "Econf.C15_join_concat", "Econf.C15_join_spec", "Econf.C15_no_join", "Econf.C15_python_continues", "Econf.C15_python_append"]
+LEAN_MODULES = ["Econf.Props.C15", "Econf.Props.Tie"]
+THEOREMS = ["Econf.C15_options", "Econf.C15_unknown", "Econf.C15_unknown_string", "Econf.applyOption_item", "Econf.C15_join_step", "Econf.C15_join_entry", "Econf.C15_join_value", "Econf.C15_join_since_empty", "Econf.C15_join_concat", "Econf.C15_join_spec", "Econf.C15_no_join", "Econf.C15_python_continues", "Econf.C15_python_append", "Econf.Struct.tie_option_names"]
 RULE = ("join documents (repeated keys, empty definitions, multi-line definitions), python-style documents (indented continuation lines "
         "containing delimiters and comment characters) and option strings built from the documented items in every order, repeated, "
         "and with unknown or misspelt names; distinct by (content or option string, sets)")
